@@ -45,17 +45,23 @@ class Ctx:
         self.lib = self.crates.get('lib')
         self.bin = self.crates.get('bin')
         self.obs = []
+        self._keys = {}
         self.stats = {'functions_inspected': set(), 'call_sites': 0, 'paths': 0}
         self.repo = repo or extract.REPO
 
     # --- reporting helpers
+    def _uniq(self, key):
+        n = self._keys.get(key, 0)
+        self._keys[key] = n + 1
+        return key if n == 0 else '%s#%d' % (key, n + 1)
+
     def ok(self, rule, key, text, site='', detail='', **kw):
-        o = Ob(rule, key, 'ok', text, site, detail, **kw)
+        o = Ob(rule, self._uniq(key), 'ok', text, site, detail, **kw)
         self.obs.append(o)
         return o
 
     def bad(self, rule, key, text, site='', detail='', **kw):
-        o = Ob(rule, key, 'violated', text, site, detail, **kw)
+        o = Ob(rule, self._uniq(key), 'violated', text, site, detail, **kw)
         self.obs.append(o)
         return o
 
@@ -63,7 +69,7 @@ class Ctx:
         return (self.ok if cond else self.bad)(rule, key, text, site, detail, **kw)
 
     def sres(self, cond, rule, key, text, site='', detail=''):
-        o = Ob(rule, key, 'proved' if cond else 'not-proved', text, site, detail, kind='S')
+        o = Ob(rule, self._uniq(key), 'proved' if cond else 'not-proved', text, site, detail, kind='S')
         self.obs.append(o)
         return o
 
